@@ -103,10 +103,6 @@ def cmd_check(args):
     viol_dir = os.path.join(ROOT, "work", "violations")
     os.makedirs(viol_dir, exist_ok=True)
 
-    if spec.get("kind") == "custom":
-        # properties driven by a python module (compiled tier etc.)
-        mod = __import__("vlib." + spec["module"], fromlist=["run"])
-        return mod.run(pid, tier, seed, work, viol_dir)
 
     # ---- build ----------------------------------------------------------------------------------
     engines = []
@@ -174,7 +170,7 @@ def cmd_check(args):
     # ---- replay tier: regressions (must pass) and known-finding witnesses -------------------------
     replayed = 0
     cdir = os.path.join(ROOT, "corpus", pid)
-    default_engine = spec["jobs"][0]["engine"]
+    default_engine = spec["jobs"][0]["engine"] if spec["jobs"] else None
     if os.path.isdir(cdir):
         for fn in sorted(os.listdir(cdir)):
             if fn.endswith(".meta.json") or not (fn.endswith(".json") or fn.endswith(".bin")):
@@ -210,6 +206,18 @@ def cmd_check(args):
                 continue
             path = os.path.join(ROOT, w["file"])
             eng = w.get("engine", default_engine)
+            if eng == "compiled":
+                from vlib import compiled as COMPILED
+                import io, contextlib
+                buf = io.StringIO()
+                with contextlib.redirect_stdout(buf):
+                    rcw = COMPILED.replay(path)
+                replayed += 1
+                if rcw != 0:
+                    known_lines.append("KNOWN-FINDING: property=%s %s [%s] %s" % (pid, f["id"], w.get("name", os.path.basename(path)), w.get("what", f.get("title", ""))))
+                else:
+                    notes.append("known finding %s witness %s no longer fails on this tree" % (f["id"], w.get("name", path)))
+                continue
             if eng not in bins:
                 ok, bp, log = BUILD.ensure(eng, REPO)
                 if not ok:
@@ -406,6 +414,26 @@ def cmd_check(args):
             json.dump({"engine": j["engine"], "prop": pid, "check": pid, "fuzz_target": tgt}, open(dst + ".meta.json", "w"))
             violations.append((what, dst, ""))
 
+    # ---- compiled tier (generated programs, g++ and clang++) -----------------------------------------
+    extra_nontrivial = 0
+    if spec.get("compiled"):
+        from vlib import compiled as COMPILED
+        cst, info = COMPILED.run(pid, tier, seed, work, viol_dir, known_ids)
+        if info is None:
+            return 2
+        merged["evaluations"] += info["evaluations"]
+        extra_nontrivial = info["nontrivial"]
+        for kk, vv in info["labels"].items():
+            merged["labels"]["compiled:" + kk] = vv
+        merged["samples"] = (info["samples"][:3] + merged["samples"])[:8]
+        merged["counters"]["compiled_programs"] = info["programs"]
+        for n in info["notes"]:
+            inconclusive.append(n)
+        for kk, vv in info.get("excluded_known", {}).items():
+            merged["excluded_known"][kk] = merged["excluded_known"].get(kk, 0) + vv
+        for what, vp in info["violations"]:
+            violations.append((what, vp, ""))
+
     wall = time.time() - t0
     minimum = spec.get("min_nontrivial", {}).get(tier, 2)
     status = 0
@@ -433,7 +461,7 @@ def cmd_check(args):
         "property_id": pid, "tier": tier, "seed": seed, "level": "exploration",
         "coverage": {
             "evaluations": merged["evaluations"],
-            "distinct_nontrivial": len(hashes),
+            "distinct_nontrivial": len(hashes) + extra_nontrivial,
             "rule": spec["rule"],
             "samples": merged["samples"][:6] if merged["samples"] else [{"note": "no non-trivial sample recorded"}],
             "sub_evaluations": merged["sub_evaluations"],
@@ -453,9 +481,9 @@ def cmd_check(args):
     os.makedirs(os.path.join(ROOT, "evidence"), exist_ok=True)
     with open(os.path.join(ROOT, "evidence", pid + ".json"), "w") as f:
         json.dump(ev, f, indent=1)
-    print("%s tier=%s seed=%d evaluations=%d distinct_nontrivial=%d violations=%d wall=%.1fs" % (pid, tier, seed, merged["evaluations"], len(hashes), len(seen), wall))
-    if status == 0 and len(hashes) < minimum:
-        print("HARNESS-ERROR too few non-trivial cases (%d < %d): generator starved" % (len(hashes), minimum))
+    print("%s tier=%s seed=%d evaluations=%d distinct_nontrivial=%d violations=%d wall=%.1fs" % (pid, tier, seed, merged["evaluations"], len(hashes) + extra_nontrivial, len(seen), wall))
+    if status == 0 and len(hashes) + extra_nontrivial < minimum:
+        print("HARNESS-ERROR too few non-trivial cases (%d < %d): generator starved" % (len(hashes) + extra_nontrivial, minimum))
         return 2
     return status
 
@@ -468,6 +496,9 @@ def cmd_replay(args):
     meta = None
     if path.endswith(".json"):
         meta = json.load(open(path))
+        if meta.get("kind") in ("program", "program17"):
+            from vlib import compiled as COMPILED
+            return COMPILED.replay(path)
     elif os.path.exists(path + ".meta.json"):
         meta = json.load(open(path + ".meta.json"))
     if meta:
